@@ -53,7 +53,7 @@ Inductive case :=
 | CTracker (ops : list top)
 | CKinesis (n : N) (evs : list kev)
 | CEmbedded (splits runners : N) (o : list (list N))
-| CEmbeddedRestore (splits runners : N) (panicked : bool) (o : list (list N))
+| CEmbeddedRestore (splits runners : N) (panicked : bool) (states : list (N * N)) (o : list (list N)) (o_cur : list (N * option N))
 | CHttp (runners : N) (states : list (list N)) (o : list (N * list N)).
 
 (* ================= runner: positions match the cut ================= *)
@@ -277,9 +277,15 @@ Definition check_case (c : case) : list N :=
       flag (list_eqb (list_eqb N.eqb) (embedded_assign (N.to_nat splits) (N.to_nat runners)) o) 40 ++
       flag (exactly_one_group splits o) 120 ++
       flag (N.of_nat (length o) =? runners) 120
-  | CEmbeddedRestore splits runners panicked o =>
+  | CEmbeddedRestore splits runners panicked states o o_cur =>
       flag (negb panicked) 122 ++
-      (if panicked then [] else flag (exactly_one_group splits o) 120)
+      (if panicked then [] else
+         flag (list_eqb (list_eqb N.eqb) (embedded_assign (N.to_nat splits) (N.to_nat runners)) o) 40 ++
+         flag (exactly_one_group splits o) 120 ++
+         (* every split resumes from its checkpointed cursor, or from the start when it has none *)
+         flag (list_eqb N.eqb (map fst o_cur) (concat o)
+               && forallb (fun sc => match snd sc, embedded_cursor states (fst sc) with
+                                     | Some a, Some b => a =? b | None, None => true | _, _ => false end) o_cur) 123)
   | CHttp runners states o =>
       flag (list_eqb (fun a b => (fst a =? fst b) && list_eqb N.eqb (snd a) (snd b))
                      (httpapi_assign (N.to_nat runners) states) o) 41 ++
